@@ -1241,6 +1241,15 @@ class Interp:
         if kind == "namedtuple":
             obj.attrs["__fields__"] = [f[0] for f in fields]
         else:
+            eq_ = True
+            for k in self.repo.mro(cls):
+                for d in k.node.decorator_list:
+                    if isinstance(d, ast.Call) and ast.unparse(d.func).split(".")[-1] == "dataclass":
+                        for x in d.keywords:
+                            if x.arg == "eq" and isinstance(x.value, ast.Constant) and x.value.value is False:
+                                eq_ = False
+            if eq_ and not any("__eq__" in k.methods for k in self.repo.mro(cls)):
+                obj.attrs["__dc_fields__"] = [f[0] for f in fields]     # the generated __eq__ compares these, class by class
             for k in self.repo.mro(cls):
                 if "__post_init__" in k.methods:
                     self.call(k.methods["__post_init__"], obj, [], {})
@@ -1351,6 +1360,8 @@ class Interp:
             else:
                 dict.update(obj, *args, **kwargs)
             return obj
+        if isinstance(callee, ClassRef) and any(b.split(".")[-1] == "TypedDict" for k in self.repo.mro(callee.cls) for b in k.bases):
+            return dict(*args, **kwargs)       # a TypedDict class is a plain dict at run time
         if isinstance(callee, ClassRef) and self._record_kind(callee.cls) is not None and not any("__init__" in k.methods for k in self.repo.mro(callee.cls)):
             return self._make_record(callee.cls, args, kwargs, node)
         if isinstance(callee, ClassRef):
@@ -1490,6 +1501,9 @@ class Interp:
                 and all(isinstance(x, tuple) or (isinstance(x, Obj) and "__fields__" in x.attrs) for x in (l, r)):
             tl, tr = (x if isinstance(x, tuple) else x._tuple() for x in (l, r))    # a NamedTuple IS a tuple
             return (tl == tr) if isinstance(op, ast.Eq) else (tl != tr)
+        if isinstance(op, (ast.Eq, ast.NotEq)) and isinstance(l, Obj) and isinstance(r, Obj) and "__dc_fields__" in l.attrs and "__dc_fields__" in r.attrs:
+            same = l.cls is r.cls and all(self.truth(self.compare(ast.Eq(), l.attrs.get(f_), r.attrs.get(f_))) for f_ in l.attrs["__dc_fields__"])
+            return same if isinstance(op, ast.Eq) else (not same)
         if isinstance(op, (ast.Eq, ast.NotEq)):
             for a_, b_ in ((l, r), (r, l)):
                 f = self.dunder(a_, "__ne__") if isinstance(op, ast.NotEq) else None
@@ -1501,6 +1515,11 @@ class Interp:
                     if isinstance(res, Builtin) and res.name == "NotImplemented":
                         continue
                     return res if isinstance(op, ast.Eq) else (not self.truth(res))
+        if isinstance(op, (ast.In, ast.NotIn)) and isinstance(r, (list, tuple)) and not isinstance(r, ListObj) \
+                and (isinstance(l, Obj) or any(isinstance(x, Obj) for x in r)):
+            # membership among instances goes through their own equality (identity first, as Python does)
+            res = any(x is l or self.truth(self.compare(ast.Eq(), x, l)) for x in r)
+            return res if isinstance(op, ast.In) else (not res)
         if isinstance(op, (ast.In, ast.NotIn)) and isinstance(r, (Obj, ListObj, DictObj)):
             f = self.dunder(r, "__contains__")
             if f is not None:
@@ -1912,7 +1931,7 @@ BUILTINS = {
     "int", "float", "len", "isinstance", "max", "min", "str", "bool", "range", "list",
     "tuple", "dict", "bytes", "abs", "enumerate", "zip", "sorted", "hex", "round", "set",
     "Exception", "ValueError", "RuntimeError", "OverflowError", "getattr", "setattr", "hasattr", "callable", "dir",
-    "any", "all", "next", "iter", "frozenset", "sum", "reversed", "map", "filter", "print", "divmod", "bytearray", "repr", "ord", "chr", "memoryview", "type",
+    "any", "all", "next", "iter", "frozenset", "sum", "reversed", "map", "filter", "print", "divmod", "bytearray", "repr", "ord", "chr", "memoryview", "type", "hash", "id",
     "TypeError", "KeyError", "IndexError", "AttributeError", "NotImplementedError", "StopIteration", "property", "open",
 }
 
@@ -1940,10 +1959,12 @@ class Builtin:
             ts = t if isinstance(t, tuple) else (t,)
             for one in ts:
                 if isinstance(one, Builtin):
-                    py = {"str": str, "int": int, "float": float, "bool": bool, "bytes": bytes,
-                          "list": list, "tuple": tuple, "dict": dict}.get(one.name)
+                    py = {"str": str, "int": int, "float": float, "bool": bool, "bytes": bytes, "bytearray": bytearray, "memoryview": memoryview,
+                          "list": list, "tuple": tuple, "dict": dict, "set": (set, USet), "frozenset": (frozenset, USet), "object": object}.get(one.name)
                     if py is not None and isinstance(v, py):
                         return True
+                    if one.name == "tuple" and isinstance(v, Obj) and "__fields__" in v.attrs:
+                        return True          # a NamedTuple instance is a tuple
                     if py is bytes and hasattr(v, "cells"):
                         return True
                 elif isinstance(one, ClassRef) and isinstance(v, (Obj, ListObj, DictObj, EnumMember, StrEnumMember)) and v.cls is not None:
@@ -2063,6 +2084,18 @@ class Builtin:
             if any(isinstance(a, Opaque) for a in args):
                 return Opaque(n)
             return USet(list(args[0]) if args else [])
+        if n == "hash" and len(args) == 1:
+            v = args[0]
+            if isinstance(v, Obj) and "__fields__" in v.attrs:
+                v = v._tuple()
+            if isinstance(v, Opaque):
+                return Opaque("hash")
+            try:
+                return hash(v)
+            except TypeError as e:
+                raise PyRaise(f"TypeError: {e}", node)
+        if n == "id" and len(args) == 1:
+            return id(args[0])
         if n == "type" and len(args) == 1:
             v = args[0]
             if isinstance(v, (Obj, ListObj, DictObj)) and getattr(v, "cls", None) is not None:
